@@ -107,7 +107,7 @@ class Config:
         if self.actions:
             d["actions"] = {k: [list(a) for a in v] for k, v in self.actions.items()}
         if self.expect_mismatch:
-            d["expectThat_mismatch_in_body"] = True
+            d["expectThat_mismatch_in_body" if self.expect_mismatch is True else "expectThat_mismatch_in_cleanup_1"] = True
         if self.force_failure:
             d["force_failure_preset"] = True
         if self.decorator:
@@ -240,6 +240,9 @@ def _cleanup(case, ctx, cid):
     stage_point(ctx, stage)
     ctx.xlog.append(("run", stage))
     run_actions(case, ctx, stage)
+    if ctx.config.expect_mismatch == "cleanup" and cid == "1":
+        # the expectation fails only now, while the cleanups run
+        case.expectThat(1, Equals(2), "expect!cleanup")
     perform(case, ctx, stage, ctx.decide(stage))
 
 
@@ -279,8 +282,10 @@ def make_class(config):
             stage_point(ctx, "test")
             ctx.xlog.append(("run", "test"))
             run_actions(self, ctx, "test")
-            if ctx.config.expect_mismatch:
+            if ctx.config.expect_mismatch is True:
                 self.expectThat(1, Equals(2), "expect!body")
+                # a later expectation that holds does not take the earlier failure back
+                self.expectThat(1, Equals(1), "expect!body-matching")
             perform(self, ctx, "test", ctx.decide("test"))
 
         def tearDown(self):
